@@ -295,6 +295,9 @@ pub fn gen_c15(r: &mut Rng, thorough: bool, out: &mut Vec<String>) {
     for s in all_kinds() {
         out.push(format!("pun {}", show(&s)));
     }
+    for s in aliasing_schemas() {
+        out.push(format!("pun {}", show(&s)));
+    }
     for s in scale_schemas(r, if thorough { 1025 } else { 513 }, if thorough { 1025 } else { 300 }) {
         out.push(format!("pun {}", show(&s)));
         if let Ok(b) = postcard::to_allocvec(&s) {
@@ -402,6 +405,9 @@ pub fn gen_c16(r: &mut Rng, thorough: bool, out: &mut Vec<String>) {
     out.push(format!("keydiff element-kind {} (tuple (tuple bool) bool) (tuple (tuple bool bool))", hex(b"p")));
     for (i, s) in scale_schemas(r, if thorough { 1025 } else { 513 }, if thorough { 1025 } else { 300 }).iter().enumerate() {
         out.push(format!("key {} {}", hex(paths[i % 4].as_bytes()), show(s)));
+    }
+    for s in aliasing_schemas() {
+        out.push(format!("key {} {}", hex(b"alias"), show(&s)));
     }
     // very deep chains (beyond any 12-bit counter), const vs owned hasher vs documented stream
     for d in [4095usize, 4096, 4097, 5000] {
